@@ -295,12 +295,19 @@ class Track:
 
 
 class N:
-    """a number with an absolute error bound for its float evaluation"""
-    __slots__ = ('v', 'e')
+    """a number with an absolute error bound for its float evaluation; `s`: the value is exact in floats however
+    sympy re-associates the formula that computes it (only + - * of dyadic numbers, division by powers of two)"""
+    __slots__ = ('v', 'e', 's')
 
-    def __init__(self, v, e=0.0):
+    def __init__(self, v, e=0.0, s=None):
         self.v = v
         self.e = e
+        self.s = (e == 0.0 and _repr_exact(v)) if s is None else s
+
+
+def _pow2(x: F) -> bool:
+    n, d = abs(x.numerator), x.denominator
+    return n != 0 and n & (n - 1) == 0 and d & (d - 1) == 0
 
 
 def _repr_exact(x: F) -> bool:
@@ -309,7 +316,7 @@ def _repr_exact(x: F) -> bool:
     return d & (d - 1) == 0 and d <= 2 ** 24 and abs(x.numerator) < 2 ** 44
 
 
-def _mk(tr: Track, v: F, e: float) -> N:
+def _mk(tr: Track, v: F, e: float, safe=True) -> N:
     a = abs(float(v))
     if a > tr.scale:
         tr.scale = a
@@ -319,7 +326,7 @@ def _mk(tr: Track, v: F, e: float) -> N:
         e = e + U * a
     elif not tr.floats:
         e = 0.0
-    return N(v, e)
+    return N(v, e, bool(safe) and e == 0.0 and _repr_exact(v))
 
 
 def _sc_un(tr, k, x, arg=None):
@@ -330,12 +337,12 @@ def _sc_un(tr, k, x, arg=None):
     if isinstance(x, bool):
         raise RefError('type_error')
     if k == 'neg':
-        return N(-x.v, x.e)
+        return N(-x.v, x.e, x.s)
     if k == 'abs':
-        return N(abs(x.v), x.e)
+        return N(abs(x.v), x.e, x.s)
     if k in ('floor', 'ceil'):
         fl = math.floor(x.v)
-        if x.e > 0:
+        if x.e > 0 or not x.s:
             dist = min(x.v - fl, fl + 1 - x.v) if x.v != fl else 0
             if dist <= 4 * x.e + 1e-9:
                 tr.fragile = True
@@ -346,14 +353,14 @@ def _sc_un(tr, k, x, arg=None):
         if n >= 0:
             v = x.v ** n
             e = abs(n) * abs(float(x.v)) ** max(n - 1, 0) * x.e * 2 if n > 0 else 0.0
-            return _mk(tr, v, e)
+            return _mk(tr, v, e, x.s or n == 0)
         if x.v == 0:
             raise RefError('zero_division')
         if abs(float(x.v)) <= 4 * x.e:
             tr.fragile = True
         v = 1 / x.v ** (-n)
         e = abs(n) * abs(float(v)) * x.e / max(abs(float(x.v)) - x.e, 1e-300) * 2
-        return _mk(tr, v, e)
+        return _mk(tr, v, e, x.s and _pow2(x.v))
     raise core.MachineryError(k)
 
 
@@ -366,37 +373,38 @@ def _sc_bin(tr, k, x, y):
         raise RefError('type_error')
     a, b = x.v, y.v
     fa, fb = abs(float(a)), abs(float(b))
+    both = x.s and y.s
     if k == 'add':
-        return _mk(tr, a + b, x.e + y.e)
+        return _mk(tr, a + b, x.e + y.e, both)
     if k == 'sub':
-        return _mk(tr, a - b, x.e + y.e)
+        return _mk(tr, a - b, x.e + y.e, both)
     if k == 'mul':
-        return _mk(tr, a * b, fa * y.e + fb * x.e + x.e * y.e)
+        return _mk(tr, a * b, fa * y.e + fb * x.e + x.e * y.e, both)
     if k == 'div':
         if b == 0:
             raise RefError('zero_division')
         if fb <= 4 * y.e:
             tr.fragile = True
-            return _mk(tr, a / b, 0.0)
+            return _mk(tr, a / b, 0.0, False)
         r = a / b
-        return _mk(tr, r, (x.e + abs(float(r)) * y.e) / (fb - y.e))
+        return _mk(tr, r, (x.e + abs(float(r)) * y.e) / (fb - y.e), both and _pow2(b))
     if k == 'mod':
         if b == 0:
             raise RefError('zero_division')
         q = a / b
         fl = math.floor(q)
         eq_ = (x.e + abs(float(q)) * y.e) / max(fb - y.e, 1e-300) if (x.e or y.e) else 0.0
-        if x.e or y.e:
+        if x.e or y.e or not both:
             dist = min(q - fl, fl + 1 - q) if q != fl else 0
             if dist <= 4 * eq_ + 1e-9:
                 tr.fragile = True
-        return _mk(tr, a - b * fl, x.e + abs(fl) * y.e)
+        return _mk(tr, a - b * fl, x.e + abs(fl) * y.e, both)
     if k == 'min':
-        return N(min(a, b), max(x.e, y.e))
+        return N(min(a, b), max(x.e, y.e), both)
     if k == 'max':
-        return N(max(a, b), max(x.e, y.e))
+        return N(max(a, b), max(x.e, y.e), both)
     if k in ('lt', 'le', 'gt', 'ge', 'eq', 'ne'):
-        if (x.e or y.e) and abs(float(a - b)) <= 4 * (x.e + y.e) + 1e-9:
+        if (x.e or y.e or not both) and abs(float(a - b)) <= 4 * (x.e + y.e) + 1e-9:
             tr.fragile = True
         return {'lt': a < b, 'le': a <= b, 'gt': a > b, 'ge': a >= b, 'eq': a == b, 'ne': a != b}[k]
     raise core.MachineryError(k)
@@ -869,6 +877,16 @@ def gen_env(rng, tree, cfg, kinds, extra_names=()):
             if k in ('int', 'npint'):
                 v = F(rng.randrange(-4, 7))
             env[x] = (k, v)
+    return normalise_env(env)
+
+
+def normalise_env(env):
+    """a float argument *is* the double nearest to the drawn value: that double is the scope's value"""
+    for x, (k, v) in list(env.items()):
+        if k in ('float', 'npfloat'):
+            env[x] = (k, F(float(v)))
+        elif k == 'arrf':
+            env[x] = (k, [F(float(e)) for e in v])
     return env
 
 
@@ -1645,7 +1663,7 @@ def fam_cached(ctx, n):
                         env[x] = (rng.choice(kinds), gen_value(rng, c2.numbers) if kinds != ('int',) else F(rng.randrange(-4, 7)))
                         if env[x][0] in ('int', 'npint'):
                             env[x] = (env[x][0], F(rng.randrange(-4, 7)))
-            rounds.append((mode, env))
+            rounds.append((mode, normalise_env(env)))
         cases += cached_cases(tree, rounds, {})
     return run_cases(ctx, cases)
 
@@ -1796,7 +1814,22 @@ def check_compare_one(ctx, op, ltree, rtree, lkind, rkind, envs, report=True):
     return compare_verdict(ctx, op, ltree, rtree, ans, res[0], list(zip(envs, res[1:])))
 
 
+def hits_reversed_sum(tree, env) -> bool:
+    tr = Track(False)
+    try:
+        ref_eval(tr, tree, env_ref(tr, env))
+    except RefError:
+        pass
+    return tr.reversed_sum
+
+
 def compare_verdict(ctx, op, ltree, rtree, ans, model, evals):
+    if PF27_LISTED[0]:
+        both = ('vecx', ltree, rtree)
+        if not tree_vars(both) and hits_reversed_sum(both, {}):
+            ctx.count('compare:skipped-known-PF-27')
+            return []
+        evals = [(env, r) for env, r in evals if not hits_reversed_sum(both, env)]
     closed = not tree_vars(ltree) and not tree_vars(rtree)
     sumfree = not tree_has(ltree, ('sum',)) and not tree_has(rtree, ('sum',))
     mdec = None if model == 'none' else (model[1] == 'true')
